@@ -14,6 +14,7 @@ from .cloudworld import CloudWorld, replay_scenario, replay_judge, validate_samp
 from .c09 import Program, Then, is_add_result
 
 PROPERTY = 'C10'
+REPLAY_RETRIES = 2
 LEVEL = 'model_checking'
 AGE = 3600 * 24 * 180
 
